@@ -60,6 +60,8 @@ func (r *RelayAddressGeneratorStatic) AllocatePacketConn(
 	// Replace actual listening IP with the user requested one of RelayAddressGeneratorStatic
 	relayAddr, ok := conn.LocalAddr().(*net.UDPAddr)
 	if !ok {
+		_ = conn.Close()
+
 		return nil, nil, errNilConn
 	}
 
